@@ -80,7 +80,7 @@ pub fn one(drv: &mut Driver, rep: &mut Report, rt: &tokio::runtime::Runtime, str
         rep.diverge(Failure { stream: stream.into(), index: idx, request: vec![req], impl_out: format!("{got:?}"), model_out: ans.clone(), key: "relay:protocol".into(), what: "driver answer malformed".into() });
         return;
     }
-    let mut deliveries = 0; let mut expired_drop = false;
+    let mut deliveries = 0; let mut expired_drop = false; let mut diverged = false;
     for (k, (g, r)) in got.iter().zip(recs.iter()).enumerate() {
         let impl_s = format!("{}|{}|{}|{}", g.0, g.1, g.2, g.3);
         let model_s = format!("{}|{}|{}|{}", r[0], r[1], r[2], r[3]);
@@ -97,18 +97,20 @@ pub fn one(drv: &mut Driver, rep: &mut Report, rt: &tokio::runtime::Runtime, str
                 rep.pred_fail(Failure { stream: stream.into(), index: idx, request: vec![req.clone()], impl_out: format!("op {k}: {impl_s}"),
                     model_out: format!("op {k}: spec deliveries {} entries {}", r[4], r[5]), key: key.into(), what: what.into() });
             }
-            if impl_s != model_s {
+            if impl_s != model_s && !diverged {
                 rep.diverge(Failure { stream: stream.into(), index: idx, request: vec![req.clone()], impl_out: format!("op {k}: {impl_s}"), model_out: format!("op {k}: {model_s}"),
                     key: "relay:model".into(), what: "Lean model Relay.step and SimpleMessageRelay disagree".into() });
             }
             return;
         }
-        if impl_s != model_s {
+        if impl_s != model_s && !diverged {
+            // keep scanning: the property's conclusion may fail only some operations after the first divergence
+            diverged = true;
             rep.diverge(Failure { stream: stream.into(), index: idx, request: vec![req.clone()], impl_out: format!("op {k}: {impl_s}"), model_out: format!("op {k}: {model_s}"),
                 key: "relay:model".into(), what: "Lean model Relay.step and SimpleMessageRelay disagree".into() });
-            return;
         }
     }
+    if diverged { return; }
     rep.hist(&format!("len={}", (ops.len() + 9) / 10 * 10));
     if deliveries > 0 { rep.hist("histories_with_delivery"); }
     if expired_drop { rep.hist("histories_with_expiry_drop"); }
